@@ -155,4 +155,4 @@ def run(rep, tier, seed, only=None):
     rep.outside = ["block names that clash with gate labels of the operands"]
     rep.rule = "program = ordered pair of circuits; validity of the miter specification decided by z3 over all inputs"
     rep.explanation = "translation validation of build_miter"
-    rep.pmap(unit, [("feature", 0)] + [("seeded", seed * 91 + s) for s in range(32 if thorough else 15)])
+    rep.pmap(unit, [("feature", 0)] + [("seeded", seed * 91 + s) for s in range(128 if thorough else 47)])
